@@ -219,7 +219,7 @@ func checkC02Frame(frame []byte, origin string) kit.Result {
 	chk("SerialNumber", h.SerialNumber, f.Serial)
 	chk("SubPackageSum", h.SubPackageSum, f.Total)
 	chk("SubPackageNo", h.SubPackageNo, f.No)
-	if ref.BCDOnly(f.PhoneBCD) {
+	{ // nibbles a..f are rendered as lower-case letters (pinned by the repository's TestBcd2Dec)
 		if ref.StripZeros(h.TerminalPhoneNo) != ref.StripZeros(ref.PhoneDigits(f.PhoneBCD)) {
 			errs = append(errs, fmt.Sprintf("TerminalPhoneNo=%q want %q modulo leading zeros", h.TerminalPhoneNo, ref.PhoneDigits(f.PhoneBCD)))
 		}
